@@ -39,7 +39,7 @@ ASSUMPTIONS = [
     "shared/target weights are compared on parameter names (weights), right after the mutation",
 ]
 REQUIRED_COUNTERS = ["agents_checked", "optimizer_param_checks", "shared_network_checks", "learn_probes", "act_probes"]
-CASE_TIMEOUT_S = 420
+CASE_TIMEOUT_S = 1500
 
 _REC = {"on": False, "log": []}
 KIND_OF = {
